@@ -1,11 +1,87 @@
 import SageModel.Proto
+import SageModel.Model.C05
 
-/-! Driver ops for C05 (stub: no ops yet). -/
+/-! Driver ops for C05.
+
+`digest <opt mc> <opt min_len> <opt max_len> <opt cleave-hex> <opt restrict-byte> <opt c_terminal>
+        <opt semi> <seq-hex>`            (`opt x` = `0` or `1 x`: the `EnzymeBuilder` fields)
+   reply: `panic` or `n (seq-hex missed_cleavages position semi)…` in the order produced
+          (position: 0 Nterm, 1 Cterm, 2 Full, 3 Internal)
+`fasta <decoy-tag-hex> <generate_decoys> <text-hex>`
+   reply: `panic` or `n (accession-hex sequence-hex)…` in file order
+
+Both are compared token for token (`Proto.exact`): everything is integers and byte strings, the
+order is the deterministic `Vec` order of the code.
+-/
 namespace Sage.C05
 open Sage.Proto
 
+def posCode : Position → Nat
+  | .nterm => 0 | .cterm => 1 | .full => 2 | .internal => 3
+
+def posOfCode : Nat → Option Position
+  | 0 => some .nterm | 1 => some .cterm | 2 => some .full | 3 => some .internal | _ => none
+
+def outDigest (d : Digest) : String :=
+  s!"{hex d.seq} {d.mc} {posCode d.pos} {outBool d.semi}"
+
+def pDigest : P Digest := do
+  let w ← bytes
+  let mc ← nat
+  let p ← nat
+  let semi ← bool
+  match posOfCode p with
+  | some pos => pure ⟨w, mc, pos, semi⟩
+  | none => failure
+
+def pBuilder : P (Builder × Seq) := do
+  let mc ← opt nat
+  let mn ← opt nat
+  let mx ← opt nat
+  let cl ← opt bytes
+  let sk ← opt nat
+  let ct ← opt bool
+  let se ← opt bool
+  let s ← bytes
+  pure (⟨mc, mn, mx, cl, sk.map Nat.toUInt8, ct, se⟩, s)
+
+/-- records as printed -/
+def outRec (r : Seq × Seq) : String := s!"{hex r.1} {hex r.2}"
+
+def pRec : P (Seq × Seq) := do
+  let a ← bytes
+  let b ← bytes
+  pure (a, b)
+
 def handle (op : String) (args impl : List String) : Option Reply :=
   match op with
+  | "digest" => do
+    let (b, s) ← run pBuilder args
+    match b.toParams with
+    | none => pure (exact "panic" (" ".intercalate impl) "na")
+    | some par =>
+      let out := digest par s
+      let model := outList outDigest out
+      let spec : String :=
+        match run (list pDigest) impl with
+        | none => "na"
+        | some iout =>
+          -- the O(n²)-enumeration spec on the IMPLEMENTATION's peptides (size-capped: the generator
+          -- stays below the cap)
+          if (cands par s).length * (iout.length + 1) > 3000000 then "na"
+          else specVerdict par s iout
+      pure (exact model (" ".intercalate impl) spec)
+  | "fasta" => do
+    let (tag, gen, text) ← run (do let t ← bytes; let g ← bool; let x ← bytes; pure (t, g, x)) args
+    match parse tag gen text with
+    | none => pure (exact "panic" (" ".intercalate impl) "na")
+    | some recs =>
+      let model := outList outRec recs
+      let spec : String :=
+        match run (list pRec) impl with
+        | none => "na"
+        | some irecs => fastaVerdict tag gen text irecs
+      pure (exact model (" ".intercalate impl) spec)
   | _ => none
 
 end Sage.C05
